@@ -1,4 +1,4 @@
-import TakVerif.Proofs.LegalSet
+import TakVerif.Proofs.EngineLegalSet
 
 /-! # C03 — the move generator lists every legal move exactly once, none off the board
 
@@ -141,6 +141,15 @@ theorem allMoves_complete (p : Pos) (wf : WFlite p) (m : Tak.Move) (hnp : m.type
     (hl : Spec.step (abs p) (decode m) ≠ none) : ∃ m' ∈ p.allMoves, m'.equal m = true :=
   allMoves_complete' p wf m hnp hl
 
+/-- **allMoves_complete_engine**: the same against the engine itself — every non-pass raw move that `Pos.apply`
+(the statement-for-statement model of `Position.MovePreallocated`, tied to Go by C01's and this property's
+correspondence) applies successfully is `Move.Equal` to a generated move.  Proved directly from the acceptance
+tests of `Pos.apply` (type dispatch, opening rule, bounds check, occupancy, reserve bytes, carry limits, owner
+bit, the per-step bounds check of the drop loop); it does not use the rule book or C01. -/
+theorem allMoves_complete_engine (basis : Array W) (p : Pos) (wf : WFlite p) (m : Tak.Move) (q : Pos)
+    (hnp : m.type ≠ Facts.mtPass) (h : p.apply basis m = .ok q) : ∃ m' ∈ p.allMoves, m'.equal m = true :=
+  allMoves_complete_apply' basis p wf m q hnp h
+
 /-- **allMoves_sound_shape**: a generated placement is on a `Height == 0` square with slide word 0, a wall/capstone
 only from ply 2, a capstone only while the mover's capstone byte is non-zero; a generated slide comes after the
 opening from a stack whose mover bit is set, its drops are all ≥ 1, non-empty, and sum to at most
@@ -170,6 +179,19 @@ theorem legal_filter_eq (p : Pos) (wf : WFlite p) :
     (∀ m' ∈ p.allMoves.filter (legal p), legal p m' = true ∧ m'.type ≠ Facts.mtPass ∧ OnBoard p.cfg.size m') ∧
     (p.allMoves.filter (legal p)).Nodup ∧
     (p.allMoves.filter (legal p)).Pairwise (fun a b => a.equal b = false) := legal_filter_eq' p wf
+
+/-- **engine_filter_eq**: the same for the engine's own notion of legality, `accepted basis p m := (p.apply basis m).toBool`
+("`Position.Move` returns no error"): `AllMoves` filtered by `Move` — the list `search`, the solvers and random play
+iterate over — has exactly one entry `Equal` to each non-pass move the engine applies, only on-board non-pass moves,
+no repetition.  Uses that `MovePreallocated` never reads the slide word of a non-slide (`apply_congr_nonslide`). -/
+theorem engine_filter_eq (basis : Array W) (p : Pos) (wf : WFlite p) :
+    (∀ m, m.type ≠ Facts.mtPass → accepted basis p m = true →
+        ∃ m', (m' ∈ p.allMoves.filter (accepted basis p) ∧ m'.equal m = true) ∧
+          ∀ m'', m'' ∈ p.allMoves.filter (accepted basis p) → m''.equal m = true → m'' = m') ∧
+    (∀ m' ∈ p.allMoves.filter (accepted basis p),
+        accepted basis p m' = true ∧ m'.type ≠ Facts.mtPass ∧ OnBoard p.cfg.size m') ∧
+    (p.allMoves.filter (accepted basis p)).Nodup ∧
+    (p.allMoves.filter (accepted basis p)).Pairwise (fun a b => a.equal b = false) := engine_filter_eq' basis p wf
 
 /-- **legalMoves_perm**: the filtered generator list is a permutation of `Spec.legalMoves (abs p)` — the list the
 correspondence check compares, on every sampled position, with Go's `AllMoves` filtered by `Move`. -/
@@ -206,17 +228,27 @@ theorem exPos2_wf : WFlite exPos2 := ⟨by decide, by decide, by decide⟩
 -- a legal slide given with an out-of-list representation is found in the list
 example : ∃ m' ∈ exPos.allMoves, m'.equal ⟨0, 0, Facts.mtSlideRight, 1#32⟩ = true :=
   allMoves_complete exPos exPos_wf _ (by decide) (by decide)
+-- the engine applies that slide (and a 5-piece carry off the tall corner stack): hypotheses of `allMoves_complete_engine`
+example : (exPos.apply (Array.replicate 64 0#64) ⟨0, 0, Facts.mtSlideRight, 1#32⟩).toBool = true := by decide +kernel
+example : (exPos2.apply (Array.replicate 64 0#64) ⟨0, 0, Facts.mtSlideUp, 0x1112#32⟩).toBool = true := by decide +kernel
 -- a legal placement written with a junk slide word is `Equal` to a listed one
 example : ∃ m' ∈ exPos.allMoves, m'.equal ⟨2, 2, Facts.mtPlaceStanding, 0xdead#32⟩ = true :=
   allMoves_complete exPos exPos_wf _ (by decide) (by decide)
--- the tall corner stack: carry 5 as 2+1+1+1 to the right edge is legal … and listed
+-- the tall corner stack (7 high, carry limit 5): carrying 5 up the a-file as 2+1+1+1 is legal … and listed
 example : legal exPos2 ⟨0, 0, Facts.mtSlideUp, 0x1112#32⟩ = true := by decide
 example : (⟨0, 0, Facts.mtSlideUp, 0x1112#32⟩ : Tak.Move) ∈ exPos2.allMoves := by decide +kernel
 -- the capstone alone may flatten the wall two squares to the right only at the end: 1 then 1 is legal, 2 is not
 example : legal exPos2 ⟨0, 0, Facts.mtSlideRight, 0x11#32⟩ = true ∧ legal exPos2 ⟨0, 0, Facts.mtSlideRight, 0x21#32⟩ = false := by decide
+example : accepted (Array.replicate 64 0#64) exPos2 ⟨4, 4, Facts.mtPlaceFlat, 0x77#32⟩ = true := by decide +kernel
 example : exPos.allMoves.length = 16 ∧ (exPos.allMoves.filter (legal exPos)).length = 16 := by decide
 example : exPos2.allMoves.length = 107 ∧ (exPos2.allMoves.filter (legal exPos2)).length = 86 := by decide +kernel
 example : (⟨0, 0, Facts.mtSlideRight, 1#32⟩ : Tak.Move) ∈ exPos.allMoves := by decide
+-- the hypotheses of the list-level theorems are met by these positions
+example : exPos2.allMoves.Nodup := allMoves_nodup exPos2 (by decide)
+example : ∃ dx dy : Int, (⟨0, 0, Facts.mtSlideUp, 0x1112#32⟩ : Tak.Move).dest = some (dx, dy) ∧ 0 ≤ dx ∧ dx < 5 ∧ 0 ≤ dy ∧ dy < 5 :=
+  (allMoves_onboard exPos2 (by decide) (by decide) _ (by decide +kernel)).2.2.2.2.2
+example : (exPos2.allMoves.filter (legal exPos2)).Perm (Spec.legalMoves (abs exPos2)) := legalMoves_perm exPos2 exPos2_wf
+example : (exPos2.allMoves.filter (legal exPos2)).Nodup := (legal_filter_eq exPos2 exPos2_wf).2.2.1
 example : ∃ p, Pos.new ⟨5, 0, 0, false⟩ = .ok p ∧ p.allMoves.length = 25 := ⟨_, rfl, by decide⟩
 
 end C03
